@@ -90,8 +90,8 @@ def Srv.step (s : Srv) (files : List RMsg) : Cmd → Srv × Reply
   | .lookupTime k t =>
     match s.file, s.find k with
     | some ms, some st =>
-      -- first file position whose calculated time (lifecycle start + timestamp) is not before t
-      let p := (ms.takeWhile fun m => m.lcStart + m.tsDms * 100 < t * 1000).length
+      -- first file position whose time (`RMsg.time`) is not before t
+      let p := (ms.takeWhile fun m => m.time < t * 1000).length
       (s, .ok s!"pos{lowerBound (st.seq ms st.stop) p}")
     | _, _ => (s, .err)
   | .lookupBad _ => (s, .err)
